@@ -55,6 +55,25 @@ static void check_block(const std::vector<Entry> &entries, const char *block, si
         if(present != (first != 0)) fail("find_presence", tags, desc, "find(" + vis(k) + ") " + (present ? "present" : "absent"), first ? "present" : "absent");
         if(present && first && k != f.title) fail("find_presence", tags, desc, std::string("find returned ") + vis(f.title), vis(k));
     }
+    // the same lookups through one key buffer that is overwritten for every key (as map_arg_vals does with "map %d"),
+    // on the same container object, in reverse order: the answer depends on the key's text only
+    {
+        char kb[64];
+        for(size_t q = keys.size(); q-- > 0;) {
+            const std::string &k = keys[q];
+            if((k.empty() && !entries.empty()) || k.size() >= sizeof kb) continue;
+            strcpy(kb, k.c_str());
+            const Entry *first = 0;
+            for(auto &e : entries) if(e.key == k) { first = &e; break; }
+            const char *v = meta[kb];
+            count("lookups_reused_key_buffer");
+            if(first && first->has_value) { if(!v || first->value != v) { fail("lookup_value", tags, desc + " [key buffer reused]", "[" + vis(k) + "] -> " + (v ? vis(v) : "<null>"), vis(first->value)); break; } }
+            else if(v) { fail("lookup_value", tags, desc + " [key buffer reused]", "[" + vis(k) + "] -> " + vis(v), first ? "<null> (first entry with the key has no value)" : "<null> (key absent)"); break; }
+            auto f = meta.find(kb);
+            bool present = (bool)f && f != meta.end();
+            if(present != (first != 0)) { fail("find_presence", tags, desc + " [key buffer reused]", "find(" + vis(k) + ") " + (present ? "present" : "absent"), first ? "present" : "absent"); break; }
+        }
+    }
     size_t len = meta.length();
     if(len != nbytes) fail("length", tags, desc, std::to_string(len), std::to_string(nbytes));
     free(h);
